@@ -3,6 +3,7 @@
 set -u
 P="$1"
 cd /verif
+export VERIF_SCRATCH=1   # evidence of runs against a modified /repo goes to .cache/scratch-evidence
 if ! git -C /repo apply "$P" 2>/dev/null; then echo "  (patch does not apply to the current /repo)"; exit 2; fi
 for c in C01 C02 C03 C04 C05 C06 C07 C08 C09 C10 C11 C12 C13 C14 C15 C16 C17 C19; do
   ./check "$c" > /tmp/ref_out.txt 2>&1
